@@ -302,6 +302,9 @@ variable {T : Int → Prop} {n : Nat} {A : Option Nat} {e : Em}
   simp [emitLoad]
 @[simp] theorem inv_emitLoadImm {d : Nat} {i : Int} : Inv T n A (emitLoadImm e d i) ↔ Inv T n A e := by
   simp [emitLoadImm]
+@[simp] theorem inv_emitLoadPacket {z b : Nat} {i : Int} : Inv T n A (emitLoadPacket e z b i) ↔ Inv T n A e := by
+  unfold emitLoadPacket
+  split <;> simp
 @[simp] theorem inv_emitStore {z s d : Nat} {o : Int} : Inv T n A (emitStore e z s d o) ↔ Inv T n A e := by
   simp [emitStore]
 @[simp] theorem inv_emitStoreImm32 {z d : Nat} {o i : Int} : Inv T n A (emitStoreImm32 e z d o i) ↔ Inv T n A e := by
